@@ -103,6 +103,21 @@ fn forward_link(later: u64) -> ClusterAction {
     })
 }
 
+/// a superseded entry: appended at an index and then replaced by another append at the *same* index before anything is
+/// committed (what a follower sees when a new leader overwrites the uncommitted tail entry of a deposed one); it must
+/// never be executed
+fn decoy(index: u64) -> Option<ClusterAction> {
+    if index % 7 == 3 {
+        Some(ClusterAction::UserAdd(UserAdd {
+            user: format!("decoy{index:04}"),
+            password: vec![7; 8],
+            salt: vec![1; 8],
+        }))
+    } else {
+        None
+    }
+}
+
 fn preamble() -> Vec<ClusterAction> {
     vec![
         ClusterAction::UserAdd(UserAdd {
@@ -198,6 +213,9 @@ async fn run_actions(dir: &str, actions: &[ClusterAction], mode: Mode, sequentia
         for a in actions {
             index += 1;
             let mut raft = inst.cluster.raft.write().await;
+            if let Some(d) = decoy(index) {
+                raft.storage.append(Log { db_id: None, index, term: 1, data: d }, None).await.map_err(|e| e.description)?;
+            }
             raft.storage.append(Log { db_id: None, index, term: 1, data: a.clone() }, None).await.map_err(|e| e.description)?;
             raft.storage.commit(index).await.map_err(|e| e.description)?;
             drop(raft);
@@ -216,6 +234,9 @@ async fn run_actions(dir: &str, actions: &[ClusterAction], mode: Mode, sequentia
             for _ in 0..burst {
                 if next < actions.len() {
                     index += 1;
+                    if let Some(d) = decoy(index) {
+                        raft.storage.append(Log { db_id: None, index, term: 1, data: d }, None).await.map_err(|e| e.description)?;
+                    }
                     raft.storage.append(Log { db_id: None, index, term: 1, data: actions[next].clone() }, None).await.map_err(|e| e.description)?;
                     next += 1;
                 }
@@ -235,6 +256,9 @@ async fn run_actions(dir: &str, actions: &[ClusterAction], mode: Mode, sequentia
             let mut raft = inst.cluster.raft.write().await;
             for a in actions {
                 index += 1;
+                if let Some(d) = decoy(index) {
+                    raft.storage.append(Log { db_id: None, index, term: 1, data: d }, None).await.map_err(|e| e.description)?;
+                }
                 raft.storage.append(Log { db_id: None, index, term: 1, data: a.clone() }, None).await.map_err(|e| e.description)?;
             }
         }
@@ -310,6 +334,8 @@ impl CaseEngine for C31 {
         "the real ServerDb, ClusterLog, DbPool and ClusterStorage (server sources compiled into the harness unmodified) on a multi-thread \
          tokio runtime with 2-16 workers: k uniquely tagged, order-sensitive actions (UserAdd of distinct users; DbExec batches that fail at \
          their place in the log because they link a node only a later entry creates - their effect must never appear, in particular not \
+         after a restart; every seventh index first receives an entry that is then superseded by another append at the same index (it must \
+         never run); \
          after a restart that follows the complete execution of the log; DbExec batches inserting a \
          tagged node linked from its predecessor, some made slow) are appended through ClusterStorage::append and committed (a) with one \
          commit(k), (b) with k successive commit(i), (c) by marking them committed and constructing a new ClusterStorage (restart replay). \
